@@ -69,7 +69,7 @@ def gen_tree(rnd, methods, maxdepth=4, mac=True):
                 nm = uniq(rnd.choice([b'ab', b'abc', b'dir', b'x', b'Sub Dir', b'a.b']), parent)
                 d = parent + nm + b'/'
                 out.append(dict(kind='dir', path=d, level=rnd.randrange(4), mtime=mtime(),
-                                perms=rnd.choice([0o40555, 0o40500, 0o40700, 0o40755, 0o40755, None])))
+                                perms=rnd.choice([0o40555, 0o40500, 0o40700, 0o40755, 0o40755, None, 0o41777, 0o42775, 0o41755, 0o43777])))
                 fill(d, depth + 1)
             elif r < 0.40:
                 nm = uniq(rnd.choice([b'lnk', b'l', b'link-with-long-name']), parent)
@@ -80,7 +80,7 @@ def gen_tree(rnd, methods, maxdepth=4, mac=True):
                 meth = rnd.choice(methods)
                 size = rnd.choice([0, 0, 1, 10, 200, 3000])
                 e = dict(kind='file', path=parent + nm, level=rnd.randrange(4), mtime=mtime(), method=meth, size=size,
-                         perms=rnd.choice([0o100644, 0o100600, 0o100755, 0o100444, 0o104755, None]), mac=None)
+                         perms=rnd.choice([0o100644, 0o100600, 0o100755, 0o100444, 0o104755, None, 0o102755, 0o106711]), mac=None)
                 if mac and rnd.random() < 0.12:
                     df = bytes(rnd.randrange(256) for _ in range(rnd.choice([0, 5, 300])))
                     rf = bytes(rnd.randrange(256) for _ in range(rnd.choice([0, 7, 130])))
